@@ -247,6 +247,27 @@ class Subject:
             self.violate("C16", "load-outcome-differs-from-uninspected-shadow", expected=out16, got=out)
         self.text = text
         nlines = len(text.split("\n"))
+        # C13: a load on a simulation that has not started behaves like the same load on a fresh one -
+        # same outcome (also for a failing load) and same observable state
+        fresh = None
+        if not started_before and "C13" in self.props:
+            fresh = self.factory()
+            try:
+                fresh.load_program(text)
+                outf = ("ok",)
+            except Exception as e:  # noqa: BLE001
+                outf = ("error", None, type(e).__name__, getattr(e, "line_number", None))
+            mine = out if out[0] == "ok" else ("error", None, out[2], out[1][2] if out[1][0] == "ParserException" else None)
+            if mine != outf:
+                self.violate("C13", "load-outcome-differs-from-fresh-simulation", expected=outf, got=mine, text=text[:400])
+            elif out[0] == "error":
+                a = snapshot(self.sut, self.isa, self.mode, wall=False)
+                b = snapshot(fresh, self.isa, self.mode, wall=False)
+                if a != b:
+                    ks = diff_keys(a, b)
+                    self.violate("C13", "state-after-failed-load-differs-from-fresh-simulation", fields=ks,
+                                 first=first_diff(b, a, ks[0]), text=text[:400])
+                self.res.probes["failed load compared with the same failed load on a fresh simulation"] += 1
         if out[0] == "error":
             self.res.faults["F-load"] += 1
             cls = out[1]
@@ -280,12 +301,15 @@ class Subject:
             self.s20 = None
             self.res.probes["F-reload: load_program on a started simulation"] += 1
             return out
-        self.s13 = self.factory()
-        try:
-            self.s13.load_program(text)
-        except Exception as e:  # noqa: BLE001
-            self.violate("C13", "fresh-simulation-rejects-text-the-used-one-accepted", got=type(e).__name__, text=text[:400])
-            self.s13 = None
+        if fresh is not None and outf[0] == "ok":
+            self.s13 = fresh
+        else:
+            self.s13 = self.factory()
+            try:
+                self.s13.load_program(text)
+            except Exception as e:  # noqa: BLE001
+                self.violate("C13", "fresh-simulation-rejects-text-the-used-one-accepted", got=type(e).__name__, text=text[:400])
+                self.s13 = None
         if self.isa == "toy":
             self.s20 = self.factory()
             try:
